@@ -244,16 +244,22 @@ func TestC15Stream(t *testing.T) {
 
 	par := max(2, min(6, runtime.NumCPU()/4))
 	per := (len(scs) + par - 1) / par
+	if per > 5000 {
+		per = 5000 // a child holds its whole chunk in memory under a 4 GiB address-space limit (thorough tier: 150 000 scenarios)
+	}
 	var chunks []*streamChunk
 	for lo := 0; lo < len(scs); lo += per {
 		chunks = append(chunks, &streamChunk{lo: lo, hi: min(len(scs), lo+per)})
 	}
 	t1 := time.Now()
 	var wg sync.WaitGroup
+	slots := make(chan struct{}, par) // at most par children at a time
 	for i, c := range chunks {
 		wg.Add(1)
+		slots <- struct{}{}
 		go func(i int, c *streamChunk) {
 			defer wg.Done()
+			defer func() { <-slots }()
 			runStreamChunk(bin, filepath.Join(work, fmt.Sprintf("chunk%d", i)), blocksPath, scs, c)
 		}(i, c)
 	}
